@@ -342,13 +342,15 @@ func c07AllEmitted(w *lab.World, c *lab.Case) bool {
 			return false
 		}
 	}
-	n := 0
+	// no fatal point: every record ends acked (confirmed or dead-lettered); wait for that, so that
+	// the final stop does not make arch-v2 drop a batch it has read but not started
+	acked := map[int]bool{}
 	for _, e := range w.Log.Snapshot() {
-		if e.Kind == lab.EvSrcEmit && e.Src == 0 {
-			n++
+		if e.Kind == lab.EvSrcAck && e.Src == 0 {
+			acked[e.Seq] = true
 		}
 	}
-	return n >= c.Sources[0].N
+	return len(acked) >= c.Sources[0].N
 }
 
 func cloneCase(src *lab.Case, dst *lab.Case) {
